@@ -340,6 +340,7 @@ def run(chk):
     _growtharg_rule(chk, prog)
     _ensuresum_rule(chk, prog)
     _capnull_rule(chk, prog)
+    _chainbuild_rule(chk, prog)
     from jv.report import must_fire
     must_fire(chk, "C04-ENSURESUM", _ensuresum_rule, "c04_ensuresum.c", ["bad_product", "bad_sum"])
 
@@ -801,3 +802,30 @@ def _capnull_rule(chk, prog):
                           "%s can return with `%s->data` released or possibly NULL while `%s->capacity` was not set to 0 on that path: "
                           "the next ensure() sees room and the following in-range store writes through NULL / freed memory" % (fn.name, lv, lv))
     chk.floor(rule, 6, n)
+
+
+def _chainbuild_rule(chk, prog):
+    """A loop that builds a prototype chain level by level (struct/to-table with its recursive flag) stores each new
+    table in `cursor->proto` and then moves the cursor to it.  Without the move every level is written to the same
+    slot: the result has the first and the last level only, and keys of the levels in between are gone."""
+    rule = "C04-CHAINBUILD"
+    chk.rule(rule, "a loop that appends freshly made tables to a prototype chain advances its cursor in the same iteration")
+    n = 0
+    for fn in prog.all_funcs():
+        for lp in [x for x in fn.nodes if x.k in ("for", "while", "do")]:
+            stores = [x for x in lp.walk() if x.k == "asg" and x.op == "=" and x.kids[0].k == "mem" and x.kids[0].field == "proto"
+                      and x.kids[0].rec == "JanetTable" and strip_casts(x.kids[0].kids[0]).k == "ref"
+                      and strip_casts(x.kids[1]).k == "call" and "table" in (strip_casts(x.kids[1]).callee or "")]
+            for st in stores:
+                v = strip_casts(st.kids[0].kids[0]).name
+                n += 1
+                chk.instance(rule)
+                chk.analysed(fn)
+                moved = any(x.k == "asg" and x.op == "=" and is_ref(x.kids[0], v) for x in lp.walk())
+                if moved:
+                    chk.ok(rule, "%s: `%s` moves along the chain it builds" % (fn.name, v))
+                else:
+                    chk.violation(rule, fn.tu.name, fn.name, "cursor:" + v, st.loc,
+                                  "`%s` is executed for every level but `%s` never moves: each level overwrites the one before, and a "
+                                  "chain of three or more levels comes out with only its first and last" % (st.text()[:60], v))
+    chk.floor(rule, 1, n)
